@@ -180,11 +180,30 @@ def gen_group_scripts(rng, n):
     return out
 
 
+TAG = "c17_%d" % os.getpid()
+
+
+def coq_eval_retry(name, imports, body, timeout):
+    """driver.coq_eval; a wall-clock expiry (load) is retried ONCE with 10x the limit before it counts"""
+    ok, vals, raw = driver.coq_eval("%s_%s" % (TAG, name), imports, body, timeout=timeout)
+    if not ok and "TIMEOUT" in raw:
+        ok, vals, raw = driver.coq_eval("%s_%s_retry" % (TAG, name), imports, body, timeout=timeout * 10)
+    return ok, vals, raw
+
+
+def run_retry(cmd, timeout, **kw):
+    """common.run; rc 124 (wall clock) is retried ONCE alone with 10x the limit: a second expiry is a real hang"""
+    r = common.run(cmd, timeout=timeout, **kw)
+    if r.returncode == 124:
+        r = common.run(cmd, timeout=timeout * 10, **kw)
+    return r
+
+
 def run_scripts(exe, lines, env=None):
     """run scripts in one process; when the library dies on a script, report it and go on with the rest"""
     outs, crashes, k = [None] * len(lines), [], 0
     while k < len(lines):
-        r = common.run([exe, "seq"], input="".join(l + "\n" for l in lines[k:]), timeout=900, env=env)
+        r = run_retry([exe, "seq"], 900, input="".join(l + "\n" for l in lines[k:]), env=env)
         got = [l for l in r.stdout.split("\n") if l[:2] in ("G ", "L ", "G", "L") and "|" in l]
         for j, g in enumerate(got):
             if k + j < len(lines):
@@ -214,7 +233,7 @@ def eval_group_model(scripts):
         calls = [c for grp in model_calls(s) for c in grp]
         body.append("Definition c%d := seq_run init_state [%s]." % (i, "; ".join("(%d, %d, %d)" % c for c in calls)))
     body.append("Eval vm_compute in [%s]." % "; ".join("c%d" % i for i in range(len(scripts))))
-    ok, vals, raw = driver.coq_eval("c17_group", ["Word", "Conc", "Refcnt"], "\n".join(body) + "\n", timeout=900)
+    ok, vals, raw = coq_eval_retry("group", ["Word", "Conc", "Refcnt"], "\n".join(body) + "\n", 900)
     if not ok or len(vals) != 1:
         raise RuntimeError("model evaluation failed: " + raw[-1500:])
     txt = vals[0].replace("\n", " ")
@@ -241,13 +260,29 @@ def eval_group_model(scripts):
             if num and cur_obs is not None:
                 cur_obs.append(int(num))
             num = ""
+    if len(res) != len(scripts):
+        raise RuntimeError("model evaluation returned %d results for %d scripts" % (len(res), len(scripts)))
     return res
 
 
-def check_group(scripts, outs, crashes, label):
+def group_expectations(script, mo):
+    """what the harness should see at the quiescent point after each call: xref:ref:queue-refs (-77 = released)"""
+    out, pos = [], 0
+    for grp in model_calls(script):
+        pos += len(grp)
+        if pos - 1 >= len(mo) or [-99] in mo[:pos]:
+            return ""                     # the model refuses the script: no expectations (reported by check_group)
+        m = mo[pos - 1] if pos > 0 else [0, 0, 0, 0, 0, 0, 0, 0]
+        out.append("%d:%d:%d" % ((-77, -77, m[7]) if m[5] == 1 else (m[0], m[1], m[7])))
+    return ";".join(out)
+
+
+def check_group(scripts, outs, crashes, label, model):
     mism, fails, stats = [], [], {"group_scripts": len(scripts), "group_calls": 0, "max_pending_notifications": 0, "disposed": 0,
                                   "finalized": 0, "dispose_by_leave_or_internal_release": 0}
-    model = eval_group_model(scripts)
+    if not (len(scripts) == len(outs) == len(model)):
+        return [{"what": "group differential: %d scripts, %d harness answers, %d model answers" % (len(scripts), len(outs), len(model)),
+                 "detail": {}}], [], stats
     crashed = {k for k, _, _ in crashes}
     for idx, (s, out, mo) in enumerate(zip(scripts, outs, model)):
         toks, groups = tokens(s), model_calls(s)
@@ -273,6 +308,10 @@ def check_group(scripts, outs, crashes, label):
             continue
         steps, fin = parse_g(out)
         sim, pos = GSim(), 0
+        if len(steps) != len(toks) or len(groups) != len(toks) or len(fin) < 4:
+            mism.append({"what": "group differential: the harness answered %d calls of %d (script %s)" % (len(steps), len(toks), s),
+                         "detail": {"script": s}})
+            continue
         stats["group_calls"] += len(toks)
         bad = False
         for k, (c, grp) in enumerate(zip(toks, groups)):
@@ -473,8 +512,8 @@ def lane_expect(scripts):
     return plans
 
 
-def check_lanes(scripts, outs, crashes, label):
-    mism, fails = [], []
+def eval_lane_model(scripts):
+    """(plans, per script list of [q_xref, q_ref, focus_xref, focus_ref] from Refcnt.lane_ref evaluated in Coq)"""
     plans = lane_expect(scripts)
     body = []
     for i, (steps, _, _, _, _) in enumerate(plans):
@@ -482,16 +521,31 @@ def check_lanes(scripts, outs, crashes, label):
             "[lane_xref (%s); lane_ref (%s); %s]" % (q, q, ("lane_xref (%s); lane_ref (%s)" % (f, f)) if f else "-78; -78")
             for q, f in steps)))
     body.append("Eval vm_compute in [%s]." % "; ".join("l%d" % i for i in range(len(plans))))
-    ok, vals, raw = driver.coq_eval("c17_lane", ["Word", "Conc", "Refcnt"], "\n".join(body) + "\n", timeout=600)
+    ok, vals, raw = coq_eval_retry("lane", ["Word", "Conc", "Refcnt"], "\n".join(body) + "\n", 600)
     if not ok or len(vals) != 1:
         raise RuntimeError("lane model evaluation failed: " + raw[-1500:])
     nums = driver.ints(vals[0])
-    pos = 0
+    if len(nums) != 4 * sum(len(p[0]) for p in plans):
+        raise RuntimeError("lane model evaluation returned %d numbers for %d calls" % (len(nums), sum(len(p[0]) for p in plans)))
+    exps, pos = [], 0
+    for steps, _, _, _, _ in plans:
+        exps.append([nums[pos + 4 * k: pos + 4 * k + 4] for k in range(len(steps))])
+        pos += 4 * len(steps)
+    return plans, exps
+
+
+def lane_expectations(exp):
+    return ";".join("%d:%d:%d:%d" % tuple(e) for e in exp)
+
+
+def check_lanes(scripts, outs, crashes, label, plans, exps):
+    mism, fails = [], []
+    if not (len(scripts) == len(outs) == len(plans) == len(exps)):
+        return [{"what": "lane differential: %d scripts, %d harness answers, %d model answers" % (len(scripts), len(outs), len(exps)),
+                 "detail": {}}], [], {"lane_scripts": len(scripts), "lane_calls": 0}
     crashed = {k for k, _, _ in crashes}
     steps_total = 0
-    for idx, (s, out, (steps, disposed, hasfin, hasspec, items)) in enumerate(zip(scripts, outs, plans)):
-        exp = [nums[pos + 4 * k: pos + 4 * k + 4] for k in range(len(steps))]
-        pos += 4 * len(steps)
+    for idx, (s, out, (steps, disposed, hasfin, hasspec, items), exp) in enumerate(zip(scripts, outs, plans, exps)):
         if out is None and idx not in crashed:
             continue
         if idx in crashed or out is None:
@@ -503,6 +557,10 @@ def check_lanes(scripts, outs, crashes, label):
         got = [xs[i:i + 4] for i in range(0, len(xs), 4)]
         fin = [int(v) for v in fin.split()]
         steps_total += len(got)
+        if len(got) != len(exp):
+            mism.append({"what": "lane differential: the harness answered %d calls of %d (script %s)" % (len(got), len(exp), s),
+                         "detail": {"script": s}})
+            continue
         for k, (g, e) in enumerate(zip(got, exp)):
             e = list(e)
             if e[1] < 0:
@@ -606,43 +664,94 @@ def analyse_stress(text, label, rc, err):
     return fails, traces, stats
 
 
+def seq_part(exe, ctx, ngroup, nlane, label="seq", gs=None, ls=None, env=None):
+    """white-box differential: model first (its counts are the quiescence conditions handed to the harness), then the library"""
+    mism, fails, dist, samples = [], [], {}, []
+    gs = gen_group_scripts(ctx.rng, ngroup) if gs is None else gs
+    ls = gen_lane_scripts(ctx.rng, nlane) if ls is None else ls
+    try:
+        model = eval_group_model(gs)
+        outs, crashes = run_scripts(exe, ["G %s %s" % (s, group_expectations(s, mo)) for s, mo in zip(gs, model)], env=env)
+        m1, f1, st1 = check_group(gs, outs, crashes, label, model)
+        mism += m1; fails += f1; dist.update(st1)
+        samples += [{"group_script": s, "impl": o} for s, o in list(zip(gs, outs))[:3]]
+        if gs and st1.get("group_calls", 0) == 0 and not f1:
+            mism.append({"what": "group differential: no call of %d scripts was compared" % len(gs), "detail": {}})
+    except Exception as e:  # noqa
+        mism.append({"what": "group differential could not be carried out", "detail": repr(e)[-1500:]})
+    try:
+        plans, exps = eval_lane_model(ls)
+        louts, lcrashes = run_scripts(exe, ["L %s %s" % (s, lane_expectations(e)) for s, e in zip(ls, exps)], env=env)
+        m2, f2, st2 = check_lanes(ls, louts, lcrashes, label, plans, exps)
+        mism += m2; fails += f2; dist.update(st2)
+        samples += [{"lane_script": s, "impl": o} for s, o in list(zip(ls, louts))[:2]]
+        if ls and st2.get("lane_calls", 0) == 0 and not f2:
+            mism.append({"what": "lane differential: no call of %d scripts was compared" % len(ls), "detail": {}})
+    except Exception as e:  # noqa
+        mism.append({"what": "lane differential could not be carried out", "detail": repr(e)[-1500:]})
+    return mism, fails, dist, samples, gs, ls
+
+
+def conform_traces(alltr, tag):
+    """per-thread trace conformance inside Coq; a wall-clock expiry is retried once, alone, with 10x the limit"""
+    try:
+        return conc.coq_conform("%s_%s" % (TAG, tag), ["Word", "Conc", "Gen_group", "Gen_refcnt", "Refcnt"], "conform",
+                                [(0, t) for (_, t, _, _, _) in alltr], timeout=1200, chunk=150)
+    except RuntimeError as e:
+        if "TIMEOUT" not in str(e):
+            raise
+        return conc.coq_conform("%s_%s_retry" % (TAG, tag), ["Word", "Conc", "Gen_group", "Gen_refcnt", "Refcnt"], "conform",
+                                [(0, t) for (_, t, _, _, _) in alltr], timeout=12000, chunk=60)
+
+
+def stress_part(exe, ctx, plan, env=None, tag="conf"):
+    """plan: list of (seed, rounds, permille).  Returns mismatches, failures, distribution, traces"""
+    mism, fails, total, alltr = [], [], {}, []
+    for seed, rounds, permille in plan:
+        r = run_retry([exe, "stress", str(seed), str(rounds), str(permille)], 600, env=env)
+        f, tr, st = analyse_stress(r.stdout, "seed%d" % seed, r.returncode, r.stderr)
+        for x in f:
+            x.update({"seed": seed, "rounds": rounds, "permille": permille})
+        fails += f
+        if st["rounds"] != rounds and r.returncode == 0:
+            mism.append({"what": "stress seed %d: %d rounds reported of %d requested although the harness exited 0" % (seed, st["rounds"], rounds),
+                         "detail": {"seed": seed, "rounds": rounds, "permille": permille}})
+        alltr += [(thr, t, seed, rounds, permille) for thr, t in tr]
+        for k, v in st.items():
+            total[k] = max(total.get(k, 0), v) if k in ("max_batch", "max_concurrent_borrowers") else total.get(k, 0) + v
+    if plan and not alltr and not fails:
+        mism.append({"what": "stress: no thread trace was recorded in %d runs (hook compiled out or empty dump)" % len(plan), "detail": {}})
+    if alltr:
+        try:
+            res = conform_traces(alltr, tag)
+            if len(res) != len(alltr):
+                mism.append({"what": "trace conformance answered %d of %d traces" % (len(res), len(alltr)), "detail": {}})
+            for (i, idle), (thr, t, seed, rounds, permille) in zip(res, alltr):
+                if i != -1 or idle != 1:
+                    mism.append({"what": "a recorded thread trace of the library (refcount / group events) is not accepted by the model's "
+                                         "thread automaton Refcnt.tstep: the implementation took a step the model does not have",
+                                 "detail": {"seed": seed, "rounds": rounds, "permille": permille, "thread": thr, "rejected_at": i,
+                                            "ended_idle": idle,
+                                            "around": [e.brief() for e in t[max(0, i - 6):i + 3]] if i >= 0 else [e.brief() for e in t[-8:]]}})
+        except Exception as e:  # noqa
+            mism.append({"what": "trace conformance could not be evaluated", "detail": repr(e)[-1500:]})
+    total["traces_replayed"] = len(alltr)
+    return mism, fails, total, alltr
+
+
 def correspond(ctx):
     exe, msg = common.build_harness("c17_refs", ["c17_refs.c"], whitebox=True, extra=["-I" + common.VERIF + "/harness"])
     if exe is None:
         return {"mismatches": [{"what": "harness build failed", "detail": msg}], "failures": [], "evaluations": 0}
     quick = ctx.tier == "quick"
-    mism, fails = [], []
     # (a) white-box differential: groups against the global model run sequentially, lanes / sources against lane_ref
-    gs = gen_group_scripts(ctx.rng, 60 if quick else 600)
-    outs, crashes = run_scripts(exe, ["G " + s for s in gs])
-    m1, f1, st1 = check_group(gs, outs, crashes, "seq")
-    ls = gen_lane_scripts(ctx.rng, 25 if quick else 250)
-    louts, lcrashes = run_scripts(exe, ["L " + s for s in ls])
-    m2, f2, st2 = check_lanes(ls, louts, lcrashes, "seq")
-    mism += m1 + m2
-    fails += f1 + f2
+    mism, fails, dist, samples, gs, ls = seq_part(exe, ctx, 60 if quick else 600, 25 if quick else 250)
     # (b) stress with recorded refcount events: per-thread trace conformance + API oracle
-    alltr, total = [], {}
     nseeds, rounds = (3, 25) if quick else (6, 80)
-    for i in range(nseeds):
-        seed = ctx.seed * 1000 + i
-        permille = [0, 150, 400][i % 3]
-        r = run_stress(exe, seed, rounds, permille)
-        f, tr, st = analyse_stress(r.stdout, "seed%d" % seed, r.returncode, r.stderr)
-        for x in f:
-            x["permille"] = permille
-        fails += f
-        alltr += [(thr, t, seed) for thr, t in tr]
-        for k, v in st.items():
-            total[k] = max(total.get(k, 0), v) if k in ("max_batch", "max_concurrent_borrowers") else total.get(k, 0) + v
-    res = conc.coq_conform("c17_conf", ["Word", "Conc", "Gen_group", "Gen_refcnt", "Refcnt"], "conform",
-                           [(0, t) for (_, t, _) in alltr], timeout=1200, chunk=150)
-    for (i, idle), (thr, t, seed) in zip(res, alltr):
-        if i != -1 or idle != 1:
-            mism.append({"what": "a recorded thread trace of the library (refcount / group events) is not accepted by the model's "
-                                 "thread automaton Refcnt.tstep: the implementation took a step the model does not have",
-                         "detail": {"seed": seed, "thread": thr, "rejected_at": i, "ended_idle": idle,
-                                    "around": [e.brief() for e in t[max(0, i - 6):i + 3]] if i >= 0 else [e.brief() for e in t[-8:]]}})
+    plan = [(ctx.seed * 1000 + i, rounds, [0, 150, 400][i % 3]) for i in range(nseeds)]
+    m3, f3, total, alltr = stress_part(exe, ctx, plan)
+    mism += m3
+    fails += f3
     notes = []
     # (c) thorough tier: the same scripts and stress under AddressSanitizer
     if not quick:
@@ -651,25 +760,25 @@ def correspond(ctx):
         notes.append(note)
         for b in abroken:
             mism.append({"what": "the AddressSanitizer validation of the thorough tier could not be carried out", "detail": b})
-    dist = dict(st1)
-    dist.update(st2)
     dist.update({"stress_" + k: v for k, v in total.items()})
-    distinct = len(set(gs)) + len(set(ls)) + len(set(tuple((e.kind, e.obj, e.off, e.ok & 1) for e in t) for (_, t, _) in alltr))
-    samples = [{"group_script": s, "impl": o} for s, o in list(zip(gs, outs))[:3]]
-    samples += [{"lane_script": s, "impl": o} for s, o in list(zip(ls, louts))[:2]]
-    samples += [{"thread_trace": [e.brief() for e in t][:30]} for (_, t, _) in alltr[:2]]
-    return {"evaluations": st1["group_calls"] + st2["lane_calls"] + len(alltr), "distinct_nontrivial": distinct,
+    distinct = len(set(gs)) + len(set(ls)) + len(set(tuple((e.kind, e.obj, e.off, e.ok & 1) for e in t) for (_, t, _, _, _) in alltr))
+    samples += [{"thread_trace": [e.brief() for e in t][:30]} for (_, t, _, _, _) in alltr[:2]]
+    return {"evaluations": dist.get("group_calls", 0) + dist.get("lane_calls", 0) + len(alltr), "distinct_nontrivial": distinct,
             "rule": "(a) seeded random legal reference histories on real groups (set_context/finalizer/target queue, enter, leave, "
-                    "notify with up to N pending, group_async, retain/release, internal retain/release, final drops in random order) and on "
-                    "queues / timer sources (suspend/resume, children, async while suspended, queue_set_specific, arm/cancel): do_xref_cnt, "
-                    "do_ref_cnt (and the notification queue's count) read white-box at every quiescent point and compared with "
-                    "Model/Refcnt.v (global model run sequentially / lane_ref); finalizer and destructor counts, context and queue observed "
-                    "inside the finalizer; API-level oracle independent of the model: never deallocated or finalised while the script "
-                    "still holds a reference / enter / pending notification, exactly one finalizer after the last drop; (b) stress "
-                    "rounds of 2..6 threads + 3 droppers racing the last external release, the last leave and the last internal release, "
+                    "notify with up to N pending, group_async, retain/release, _os_object_retain_weak, internal retain/release, final "
+                    "drops in random order) and on queues / timer sources (suspend/resume, children, async while suspended, drains "
+                    "interrupted by a suspension, queue_set_specific, arm/cancel): Model/Refcnt.v is evaluated first; at every quiescent "
+                    "point (barriers through the queues involved, then a condition wait on the model's counts that gives up only after 4 s "
+                    "without any change or callout) do_xref_cnt, do_ref_cnt (and the notification queue's count) are read white-box and "
+                    "compared with the model (global model run sequentially / lane_ref); finalizer and destructor counts, context and "
+                    "queue observed inside the finalizer; API-level oracle independent of the model: never deallocated or finalised while "
+                    "the script still holds a reference / enter / pending notification, exactly one finalizer after the last drop; "
+                    "(b) stress rounds of 2..6 threads + 3 droppers SHARING references (calls through external or internal references "
+                    "borrowed from a common book), racing the last external release, the last leave and the last internal release, "
                     "schedule perturbation 0/15/40 percent inside the library's atomics: every per-thread trace of refcount / group "
-                    "events replayed through Refcnt.tstep inside Coq (the release operand of every wake batch must be needs_release + "
-                    "[HAS_NOTIFS]); evaluations = calls compared + thread traces replayed",
+                    "events replayed through Refcnt.tstep inside Coq, per thread only (no global replay: values read are not checked "
+                    "against a global state; the release operand of every wake batch must be needs_release + [HAS_NOTIFS]); evaluations "
+                    "= calls actually compared + thread traces actually replayed",
             "samples": samples, "distribution": dist, "traces_validated_against_impl": len(alltr), "notes": notes,
             "mismatches": mism[:20], "failures": fails[:20]}
 
